@@ -44,13 +44,12 @@ theorem wmap_ok (hr : Reachable cap s g) (n b : Nat) (hwf : (Op.wmap n).wf s = t
   split at h <;> simp_all
 
 /-- `channel_write_unmap`: the pending `wlen` bytes join the committed stream if the channel accepts writes -/
-theorem wcommit_spec (hr : Reachable cap s g) (hwf : Op.wcommit.wf s = true) :
+theorem wcommit_spec (hr : Reachable cap s g) (hp : s.pending = true) :
     (step s .wcommit).1.pending = false ∧
     (step s .wcommit).1.total = s.total + (if s.c.accepting then s.wlen else 0) ∧
     (step s .wcommit).1.idx = s.idx ∧ (step s .wcommit).1.rds = s.rds ∧
     ∀ i, i < s.rds.length → (nth s.rds i).mapped = true → regionLen (step s .wcommit).1 i = regionLen s i := by
-  have hfr := fun i hi hm => (mapped_reader_frame hr .wcommit hwf i hi hm (by intro k; simp)).2.2.1
-  have hp : s.pending = true := by simpa [Op.wf] using hwf
+  have hfr := fun i hi hm => (mapped_reader_frame hr .wcommit rfl i hi hm (by intro k; simp)).2.2.1
   have hpend := hr.inv.pend hp
   simp only [step] at hfr ⊢
   split
